@@ -58,7 +58,7 @@ def make_case(project, direct):
     return case
 
 
-def run(ctx, theorem_modules, project, direct, what_proj, what_direct, cfg_kw=None, n=(200, 5000), rule=""):
+def run(ctx, theorem_modules, project, direct, what_proj, what_direct, cfg_kw=None, n=(200, 5000), rule="", extra_streams=None):
     fw.translate_and_build(ctx, ["WrapModel", "wrapmodel"])
     fw.audit(ctx, theorem_modules)
     case = make_case(project, direct)
@@ -94,6 +94,10 @@ def run(ctx, theorem_modules, project, direct, what_proj, what_direct, cfg_kw=No
         return first
 
     consume(fw.run_cases(case, [(ctx.seed, cfg_kw)] * ctx.scale(*n)))
+    for extra_kw, frac in (extra_streams or []):
+        kw = dict(cfg_kw or {})
+        kw.update(extra_kw)
+        consume(fw.run_cases(case, [(ctx.seed + 1009, kw)] * max(8, int(ctx.scale(*n) * frac))))
 
     def search(c):
         return consume(fw.run_cases(case, [(ctx.seed + 4711, cfg_kw)] * ctx.scale(300, 2000)), collect=False)
